@@ -63,6 +63,12 @@ def workloads(thorough):
         # second caller of the same run ID must still be refused (or, if the first is completely done, run normally)
         ("dup_nogate", [R(1), dict(id="r1d", **{"as": "r1"}, beh="ok", sig=False, badsig=False), R(2)],
          dict(phases=[["r1", "r1d"], ["r2"]], close="end")),
+        # a retry of the identical call while the first is in flight: same run ID, same signalsFromStep channel. The
+        # refusal of the retry must leave the channel to the call that owns it (it is closed once, when that call's
+        # result arrives)
+        ("dup_same_from", [dict(R(1), emit=True), dict(id="r1d", **{"as": "r1"}, dup=True, beh="ok", sig=False, badsig=False,
+                                                        emit=True, share_from=True), R(2)],
+         dict(phases=[["r1", "r1d"], ["r2"]], close="end")),
         ("dup_plain", [R(1), dict(id="r1d", **{"as": "r1"}, dup=True, beh="ok", sig=False, badsig=False), R(2)],
          dict(phases=[["r1", "r1d"], ["r2"]], close="race")),
     ]
